@@ -147,7 +147,8 @@ inductive Obs
   | onLogon | onLogout
   | armPeer (ms : Int)
   | closed
-  | store (what : String)            -- a mutation of the message store: reset | save n k r | incS | incT | setT n | refresh
+  -- mutations of the message store, in their order relative to everything else
+  | reset | saved (seq : Int) (kind : String) (resendable : Bool) | incS | incT | setT (n : Int) | refresh
   deriving Repr, Inhabited
 
 structure Sess where
@@ -168,15 +169,15 @@ structure Sess where
 def Sess.emit (s : Sess) (o : Obs) : Sess := { s with log := o :: s.log }
 
 /-- store mutations are observed (the harness wraps the real store) -/
-def Sess.storeReset (s : Sess) : Sess := { s with store := s.store.reset }.emit (.store "reset")
+def Sess.storeReset (s : Sess) : Sess := { s with store := s.store.reset }.emit .reset
 
-def resendable (m : OutMsg) : String := if m.f.get? 9003 == some "n" then "n" else "y"
+def resendable (m : OutMsg) : Bool := m.f.get? 9003 != some "n"
 
 def Sess.persistOut (s : Sess) (seq : Int) (m : OutMsg) : Sess :=
   if s.cfg.persist then
     { s with store := { s.store with msgs := (seq, m) :: s.store.msgs, sender := s.store.sender + 1 } }.emit
-      (.store ("save " ++ toString seq ++ " " ++ m.kind ++ " " ++ resendable m))
-  else { s with store := { s.store with sender := s.store.sender + 1 } }.emit (.store "incS")
+      (.saved seq m.kind (resendable m))
+  else { s with store := { s.store with sender := s.store.sender + 1 } }.emit .incS
 
 /-! ## sending -/
 
@@ -218,7 +219,10 @@ def dropAndSend (s : Sess) (m : OutMsg) : Sess :=
   | (none, s) => s
   | (some m, s) => sendQueued { s with toSend := [m] }
 
-def enqueueAndSend (s : Sess) (m : OutMsg) : Sess := sendQueued { s with toSend := s.toSend ++ [m] }
+/-- EnqueueBytesAndSend (after `fix:` 7049454: not logged on â‡’ the queued first-time messages are dropped first) -/
+def enqueueAndSend (s : Sess) (m : OutMsg) : Sess :=
+  let s := if !s.st.loggedOn then { s with toSend := [] } else s
+  sendQueued { s with toSend := s.toSend ++ [m] }
 
 def dropAndReset (s : Sess) : Sess := { s with toSend := [] }.storeReset
 
@@ -368,7 +372,7 @@ def verifySelect (s : Sess) (m : InMsg) (tooHigh tooLow appImpl : Bool) : Sess Ã
 
 /-! ## in-session handlers (in_session.go) -/
 
-def incrTarget (s : Sess) : Sess := { s with store := { s.store with target := s.store.target + 1 } }.emit (.store "incT")
+def incrTarget (s : Sess) : Sess := { s with store := { s.store with target := s.store.target + 1 } }.emit .incT
 
 def stashInsert (st : List (Int Ã— InMsg)) (n : Int) (m : InMsg) : List (Int Ã— InMsg) :=
   (n, m) :: st.filter (Â·.1 != n)
@@ -426,7 +430,8 @@ def Store.range (st : Store) (b e : Int) : List (Int Ã— OutMsg) :=
     (st.lookup n).map fun m => (n, m))
 
 def resendMessages (s : Sess) (b e : Int) : Sess :=
-  if !s.cfg.persist then enqueueAndSend s (gapFill b (e + 1))
+  if e < b then s            -- after `fix:` 0fb72e5: nothing for an empty or inverted range
+  else if !s.cfg.persist then enqueueAndSend s (gapFill b (e + 1))
   else
     let (s, seqNum, next) := resendLoop s b b (s.store.range b e)
     if seqNum != next then enqueueAndSend s (gapFill seqNum next) else s
@@ -460,7 +465,7 @@ def handleSequenceReset (s : Sess) (m : InMsg) : Sess Ã— SState :=
     | (s, none) =>
       match getInt m 36 with
       | .val n =>
-        if n > s.store.target then ({ s with store := { s.store with target := n } }.emit (.store ("setT " ++ toString n)), .inSession)
+        if n > s.store.target then ({ s with store := { s.store with target := n } }.emit (.setT n), .inSession)
         else if n < s.store.target then (doReject s m 5 none false, .inSession)
         else (s, .inSession)
       | _ => (s, .inSession)
@@ -489,7 +494,7 @@ inductive LogonErr | rej (r : Rej) | other
 def handleLogon (s : Sess) (m : InMsg) : Sess Ã— Option LogonErr :=
   if s.cfg.bs == 5 && !(m.f.has 1137) then (s, some .other) else
   let resetStore := if s.cfg.initiator then false else s.cfg.resetOnLogon
-  let s := if !s.cfg.initiator && s.cfg.refreshOnLogon then s.emit (.store "refresh") else s
+  let s := if !s.cfg.initiator && s.cfg.refreshOnLogon then s.emit .refresh else s
   match verifyAppImpl s m with
   | (s, some r) => (s, some (.rej r))
   | (s, none) =>
@@ -601,6 +606,9 @@ def setState (fuel : Nat) (s : Sess) (next : SState) : Sess :=
     if !next.connected then
       let s :=
         if s.st.connected then
+          -- handleDisconnectState (after `fix:` 69a603a): buffered inbound messages are processed first, through the
+          -- still-current state and with the connection still in place; a nested disconnect finishes the job
+          let s := drainIn fuel s
           let doOnLogout := s.st.loggedOn || (match s.st with | .logout => true | .logon => s.cfg.initiator | _ => false)
           let s := if doOnLogout then s.emit .onLogout else s
           -- onDisconnect
@@ -700,7 +708,7 @@ def connect (s : Sess) : Sess Ã— String :=
     let s := { s with out := true, inboxOpen := true, inbox := [], sentReset := false }
     if !s.cfg.initiator then ({ s with st := .logon }, "ok")
     else
-      let s := if s.cfg.refreshOnLogon then s.emit (.store "refresh") else s
+      let s := if s.cfg.refreshOnLogon then s.emit .refresh else s
       let s := if s.cfg.resetOnLogon then s.storeReset else s
       let s := sendLogonInReplyTo s (shouldSendReset s)
       ({ s with st := .logon }, "ok")
